@@ -1,9 +1,62 @@
 import RegexVerif.Sexp
+import RegexVerif.Model.Scan
 
 namespace RegexVerif.Driver
-open RegexVerif Sexp
+open RegexVerif Sexp RegexVerif.Scan
 
-/-- protocol lines with head `c07` (stub) -/
-def handleC07 (_args : List Sexp) : String := "(unimplemented)"
+/-- one table entry `(att found q)`: `att` is `x` (the attempt fails) or `(index len)`;
+    `found q` is the candidate finder's answer from that position -/
+structure ScanEntry where
+  att : Option (Nat × Nat)
+  found : Bool
+  q : Nat
+
+def scanEntry? : Sexp → Option ScanEntry
+  | .list [a, f, q] =>
+    match f.bool?, q.nat? with
+    | some f, some q =>
+      match a with
+      | .atom "x" => some ⟨none, f, q⟩
+      | .list [i, l] =>
+        match i.nat?, l.nat? with
+        | some i, some l => some ⟨some (i, l), f, q⟩
+        | _, _ => none
+      | _ => none
+    | _, _ => none
+  | _ => none
+
+def scanRow? : Sexp → Option (Array ScanEntry)
+  | .list es => (es.mapM scanEntry?).map List.toArray
+  | _ => none
+
+/-- the matcher as tables: `rows[tsmap[textstart]][pos]`. Out-of-table lookups fail / do not move. -/
+def engineOfTables (rows : Array (Array ScanEntry)) (tsmap : Array Nat) (minLen : Nat) : Engine :=
+  let entry (ts pos : Nat) : Option ScanEntry := do
+    let r ← tsmap[ts]?
+    let row ← rows[r]?
+    row[pos]?
+  { finder := fun ts pos => match entry ts pos with
+      | some e => (e.found, e.q)
+      | none => (false, pos)
+    after := fun _ q => q      -- no hook exposes where a failed execution leaves the scan position
+    attempt := fun ts pos => (entry ts pos).bind (·.att)
+    minLen := minLen }
+
+def spansSexp : Option (List (Nat × Nat)) → Sexp
+  | none => .atom "nil"
+  | some l => .list (l.map fun p => .list [ofNat p.1, ofNat p.2])
+
+/-- `(c07 (n N) (rtl b) (minlen L) (ks (k…)) (tsmap (i…)) (rows row…))` ↦
+    `(ok (iter ((index len textpos)…)) (k K findAll compatAll)…)` -/
+def handleC07 (args : List Sexp) : String :=
+  let get (key : String) : Option Sexp := (lookup key args).bind (·.head?)
+  match (get "n").bind nat?, (get "rtl").bind bool?, (get "minlen").bind nat?, (get "ks").bind ints?,
+        (get "tsmap").bind nats?, (lookup "rows" args).bind (·.mapM scanRow?) with
+  | some n, some rtl, some minLen, some ks, some tsmap, some rows =>
+    let E := engineOfTables rows.toArray tsmap.toArray minLen
+    let iter := (iterate E rtl n).map fun h => Sexp.list [ofNat h.index, ofNat h.len, ofNat h.textpos]
+    let perK := ks.map fun k => Sexp.list [.atom "k", ofInt k, spansSexp (findAll E rtl n k), spansSexp (compatAll E rtl n k)]
+    toString (Sexp.list (.atom "ok" :: Sexp.list [.atom "iter", .list iter] :: perK))
+  | _, _, _, _, _, _ => "(bad-op)"
 
 end RegexVerif.Driver
